@@ -96,6 +96,8 @@ structure Effects (c : Case) (w : WS) (act : List Nat) : Prop where
   lat : ∀ a b, w.latOf (c.baseLat a b) a b = specLat c act a b
   loss : ∀ a b, w.lossOf (c.baseLoss a b) a b = specLoss c act a b
   cap : w.capOf c.cap = specCap c act
+  /-- … for whatever capacity the model has configured: base × the factors of the active windows -/
+  capB : ∀ base, w.capOf base = specCapB c base act
 
 theorem effects_of_inv (c : Case) (w : WS) (act : List Nat) (h : WInv c.faults w act) :
     Effects c w act := by
@@ -104,7 +106,8 @@ theorem effects_of_inv (c : Case) (w : WS) (act : List Nat) (h : WInv c.faults w
   · intro a b; simp [WS.blocked, specBlocked, h.bi a b, h.dir a b]
   · intro a b; simp [WS.latOf, specLat, h.lat, layerSum_lat]
   · intro a b; simp [WS.lossOf, specLoss, h.loss, layerSum_loss]
-  · simp [WS.capOf, specCap, h.capf, prod_num, prod_den]
+  · simp [WS.capOf, specCap, specCapB, h.capf, prod_num, prod_den]
+  · intro base; simp [WS.capOf, specCapB, h.capf, prod_num, prod_den]
 
 /-- blocked ⇔ some active window covers the direction -/
 theorem specBlocked_iff (fs : List Fault) (act : List Nat) (a b : Nat) :
